@@ -74,6 +74,27 @@ Proof.
   apply parameters_agreement_lemma; assumption.
 Qed.
 
+Lemma server_agreement_run_x : forall O, ideal_crypto O ->
+  forall sc ms m ss' out0 kC eC,
+  let ss := run O sc (init_server sc) ms in
+  t_state ss = SERVER_EXPECT_FINISHED ->
+  server_handle_finished O sc ss m = (OOk, ss', out0) ->
+  m = o_build_fin O (ks_finished O kC eC) ->
+  exists s0, ss = server_expect_finished O s0 /\
+             k_tr (the_ks s0) = k_tr kC /\ k_alg (the_ks s0) = k_alg kC /\ t_dec s0 = eC /\
+             (forall pre a a' post post', k_tr kC = pre ++ a ++ post -> k_tr (the_ks s0) = pre ++ a' ++ post' ->
+                                          framed a -> framed a' -> a = a').
+Proof. intros O (A & B & C & D). apply server_agreement_run_lemma; assumption. Qed.
+
+Lemma client_no_altered_message_x : forall O, ideal_crypto O ->
+  forall cc ms finm cs' outC kF eS,
+  let cs := run O cc (client_started O cc) ms in
+  client_handle_finished O cc cs finm = (OOk, cs', outC) ->
+  finm = o_build_fin O (ks_finished O kF eS) ->
+  forall pre a a' post post', k_tr kF = pre ++ a ++ post -> k_tr (the_ks cs) = pre ++ a' ++ post' ->
+                              framed a -> framed a' -> a = a'.
+Proof. intros O (A & B & C & D). apply client_no_altered_message; assumption. Qed.
+
 Lemma tamper_detected_x : forall O, ideal_crypto O ->
   forall c pre m m' post post', framed m -> framed m' -> m <> m' ->
   (forall s kS eS, k_tr kS = pre ++ m ++ post -> k_tr (the_ks s) = pre ++ m' ++ post' ->
@@ -241,3 +262,140 @@ Example disjoint_suites_do_not_complete :
                   [] None None false None false [] false false (fun _ => None) (fun _ => [6]) no_cb in
   step toyO sc (init_server sc) (client_hello_msg toyO toy_client) = (OAlert AD_handshake_failure, init_server sc, []).
 Proof. vm_compute. reflexivity. Qed.
+
+(* ---------- non-vacuity of codec_ok: a second oracle record with genuine (injective) ServerHello and
+   EncryptedExtensions codecs ------------------------------------------------------------------------------- *)
+Definition putb (b : bytes) : bytes := Zlen b :: b.
+Definition getb (l : bytes) : bytes * bytes :=
+  match l with n :: t => (ztake n t, zdrop n t) | [] => ([], []) end.
+
+Lemma getb_putb : forall b r, getb (putb b ++ r) = (b, r).
+Proof.
+  intros b r. unfold getb, putb. simpl. unfold ztake, zdrop, Zlen. rewrite Nat2Z.id.
+  rewrite firstn_app, Nat.sub_diag, firstn_all. simpl. rewrite app_nil_r.
+  rewrite skipn_app, Nat.sub_diag, skipn_all. reflexivity.
+Qed.
+
+Definition puto (o : option Z) : bytes := match o with None => [0] | Some x => [1; x] end.
+Definition geto (l : bytes) : option Z * bytes :=
+  match l with 0 :: t => (None, t) | _ :: x :: t => (Some x, t) | _ => (None, []) end.
+Lemma geto_puto : forall o r, geto (puto o ++ r) = (o, r).
+Proof. intros [x |] r; reflexivity. Qed.
+
+Definition enc_sh (v : sh_view) : bytes :=
+  putb (sh_random v) ++ putb (sh_sid v) ++ [sh_suite v; sh_comp v] ++
+  (match sh_key_share v with None => [0] | Some (g, pk) => 1 :: g :: putb pk end) ++
+  puto (sh_psk v) ++ puto (sh_version v).
+Definition dec_sh (l : bytes) : sh_view :=
+  let '(r, l1) := getb l in
+  let '(sid, l2) := getb l1 in
+  match l2 with
+  | suite :: comp :: l3 =>
+      let '(ks, l4) := match l3 with
+                       | 0 :: t => (None, t)
+                       | _ :: g :: t => let '(pk, t') := getb t in (Some (g, pk), t')
+                       | _ => (None, [])
+                       end in
+      let '(psk, l5) := geto l4 in
+      let '(ver, _) := geto l5 in
+      mkSH r sid suite comp ks psk ver
+  | _ => mkSH [] [] 0 0 None None None
+  end.
+
+Lemma dec_enc_sh : forall v, dec_sh (enc_sh v) = v.
+Proof.
+  intros [r sid suite comp ks psk ver]. unfold enc_sh, dec_sh. cbn [sh_random sh_sid sh_suite sh_comp sh_key_share sh_psk sh_version].
+  rewrite getb_putb. cbv beta iota. rewrite getb_putb. cbv beta iota. cbn [app].
+  destruct ks as [[g pk] |]; cbn [app].
+  - rewrite getb_putb. cbv beta iota. rewrite geto_puto. cbv beta iota.
+    replace (puto ver) with (puto ver ++ []) by apply app_nil_r. rewrite geto_puto. reflexivity.
+  - rewrite geto_puto. cbv beta iota.
+    replace (puto ver) with (puto ver ++ []) by apply app_nil_r. rewrite geto_puto. reflexivity.
+Qed.
+
+Fixpoint enc_exts (l : list ext) : bytes :=
+  match l with [] => [] | (t, d) :: r => t :: putb d ++ enc_exts r end.
+Fixpoint dec_exts (n : nat) (l : bytes) : list ext :=
+  match n with
+  | O => []
+  | S n' => match l with
+            | t :: r => let '(d, r') := getb r in (t, d) :: dec_exts n' r'
+            | [] => []
+            end
+  end.
+Lemma dec_enc_exts : forall l, dec_exts (length l) (enc_exts l) = l.
+Proof.
+  induction l as [| [t d] r IH]; [reflexivity |]. cbn [enc_exts length dec_exts].
+  rewrite getb_putb. cbv beta iota. rewrite IH. reflexivity.
+Qed.
+
+Definition enc_ee (v : ee_view) : bytes :=
+  (match ee_alpn v with None => [0] | Some a => 1 :: putb a end) ++
+  [b2z (ee_early v); Zlen (ee_other v)] ++ enc_exts (ee_other v).
+Definition dec_ee (l : bytes) : ee_view :=
+  let '(a, l1) := match l with
+                  | 0 :: t => (None, t)
+                  | _ :: t => let '(x, t') := getb t in (Some x, t')
+                  | [] => (None, [])
+                  end in
+  match l1 with
+  | e :: n :: l2 => mkEE a (z2b e) (dec_exts (Z.to_nat n) l2)
+  | _ => mkEE None false []
+  end.
+Lemma dec_enc_ee : forall v, dec_ee (enc_ee v) = v.
+Proof.
+  intros [a e o]. unfold enc_ee, dec_ee. cbn [ee_alpn ee_early ee_other].
+  destruct a as [a |]; cbn [app].
+  - rewrite getb_putb. cbv beta iota. cbn [app]. unfold Zlen. rewrite Nat2Z.id, dec_enc_exts. destruct e; reflexivity.
+  - unfold Zlen. rewrite Nat2Z.id, dec_enc_exts. destruct e; reflexivity.
+Qed.
+
+Definition hdr2 (t : Z) (body : bytes) : bytes := t :: 0 :: 0 :: Zlen body :: body.
+Lemma hdr2_framed : forall t b, framed (hdr2 t b).
+Proof.
+  intros t b. unfold framed, framedb, hdr2, be24. apply Z.eqb_eq. unfold Zlen. simpl length. lia.
+Qed.
+
+Definition toyO2 : oracles :=
+  mkO toy_hash toy_hmac toy_extract toy_expand
+      (fun _ p => p) (fun _ _ => 1) (fun _ a b => Some [zsum a + zsum b])
+      (fun key _ data => key ++ data) (fun cert _ data sg => beqb sg (cert ++ data))
+      (fun _ => true) (fun _ => 2) (fun _ _ => 0)
+      (fun _ => POk toy_ch) (fun m => POk (dec_sh (zdrop 4 m))) (fun m => POk (dec_ee (zdrop 4 m)))
+      (fun _ => POk (mkCR [] None)) (fun _ => POk toy_ct)
+      (fun m => POk (mkCV 0x0403 (zdrop 4 m))) (fun m => POk (zdrop 4 m)) (fun _ => POk tt)
+      (fun _ => hdr2 1 [1]) (fun v => hdr2 2 (enc_sh v)) (fun v => hdr2 8 (enc_ee v)) (fun _ => hdr2 13 [])
+      (fun _ => hdr2 11 [77]) (fun v => hdr2 15 (cv_sig v)) (fun vd => hdr2 20 vd).
+
+Lemma toy2_ideal : ideal_crypto toyO2.
+Proof.
+  destruct toy_ideal as (A & B & C & D). unfold ideal_crypto. split; [exact A |]. split; [exact B |]. split; [exact C |].
+  intro vd. reflexivity.
+Qed.
+
+Lemma toy2_codec : codec_ok toyO2.
+Proof.
+  unfold codec_ok, toyO2; cbn [o_parse_sh o_build_sh o_parse_ee o_build_ee o_build_fin o_build_cr o_build_ct o_build_cv].
+  repeat split; try (intros; apply hdr2_framed); try (intros; simpl; discriminate).
+  - intro v. unfold hdr2. change (zdrop 4 (2 :: 0 :: 0 :: Zlen (enc_sh v) :: enc_sh v)) with (enc_sh v).
+    rewrite dec_enc_sh. reflexivity.
+  - intro v. unfold hdr2. change (zdrop 4 (8 :: 0 :: 0 :: Zlen (enc_ee v) :: enc_ee v)) with (enc_ee v).
+    rewrite dec_enc_ee. reflexivity.
+Qed.
+
+(* with the genuine codecs the honest pair still completes and agrees *)
+Definition honest_pair2 : tst * tst :=
+  let cs0 := client_started toyO2 toy_client in
+  let '(ss1, flight) := run_out toyO2 toy_server (init_server toy_server) [client_hello_msg toyO2 toy_client] in
+  let '(cs1, reply) := run_out toyO2 toy_client cs0 flight in
+  let '(ss2, _) := run_out toyO2 toy_server ss1 reply in
+  (cs1, ss2).
+
+Example honest_run_completes_2 :
+  let '(cs, ss) := honest_pair2 in
+  t_state cs = CLIENT_POST_HANDSHAKE /\ t_state ss = SERVER_POST_HANDSHAKE /\
+  t_alpn cs = t_alpn ss /\ t_alpn cs = Some [104; 51] /\ t_resumed cs = t_resumed ss /\ t_early cs = t_early ss /\
+  t_ks cs = t_ks ss /\
+  secret_of DIR_ENCRYPT EP_ONE_RTT (t_keys cs) = secret_of DIR_DECRYPT EP_ONE_RTT (t_keys ss) /\
+  secret_of DIR_DECRYPT EP_ONE_RTT (t_keys cs) = secret_of DIR_ENCRYPT EP_ONE_RTT (t_keys ss).
+Proof. vm_compute. repeat split; reflexivity. Qed.
